@@ -397,7 +397,7 @@ META = dict(
                 "modelled domains; encoder/decoder agreement: what silk_gains_quant, silk_NLSF_encode and the pitch analyser emit is codable and "
                 "decodes to exactly the gains / NLSFs / lags the encoder keeps; and at whole-codec level (opus_encode -> opus_decode, SILK-only) the "
                 "indices, last lag, accumulated gain level and NLSF vector the encoder holds for the last frame of each packet equal what the "
-                "decoder reconstructed. Judged by TLC on a harness measurement: every derived filter passes "
+                "decoder reconstructed, and so do the Q12 prediction filters of both half-frames (incl. the interpolated one; link-time interposition on both sides). Judged by TLC on a harness measurement: every derived filter passes "
                 "the library's own inverse-prediction-gain test (stable, power gain <= 1e4)."),
     level_note=("NOT decided: stability/bounded gain in any sense other than silk_LPC_inverse_pred_gain_c() != 0 measured on the recorded cases "
                 "(that function's 64-bit recursion is not modelled, so neither is the number of stabilising rounds NLSF2A chooses: the model accepts "
